@@ -134,3 +134,9 @@ func TestVerifC02_WitnessAcrossCancelledSearches(t *testing.T) {
 		}
 	})
 }
+
+// The witness when the searched text is a part of the line (--nth): range and positions are
+// reported in characters of the whole line, for every kind of term and both algorithms.
+func TestVerifC02_WitnessInScope(t *testing.T) {
+	rapid.Check(t, func(t *rapid.T) { nthMatchProp(t, "C02/witness-in-scope", true) })
+}
